@@ -25,6 +25,7 @@ ASSUMPTIONS = ['out of the domain (stated by the property or the code contract):
                'iterables that yielded nothing or only a response object are not judged for close ("that produced output")']
 
 METHODS = ['GET', 'GET', 'GET', 'HEAD', 'HEAD', 'POST', 'PUT', 'DELETE', 'OPTIONS']
+STREAM_TYPES = ['text/event-stream', 'text/event-stream; charset=utf-8', 'application/json', 'application/x-ndjson', 'multipart/x-mixed-replace; boundary=f', 'application/octet-stream', 'text/csv']
 HSAFE = st.sampled_from(['v', 'é', 'a b', '1', 'x;y'])
 
 
@@ -34,7 +35,9 @@ def case_st(draw):
         'method': draw(st.sampled_from(METHODS)), 'target': draw(st.sampled_from(['hit', 'hit', 'hit', 'hit', 'miss', 'wrongverb'])),
         'out': draw(P.outcome_st()),
         'resp_status': draw(st.sampled_from([None, None] + P.STATUSES)),
-        'resp_headers': draw(st.lists(st.tuples(st.sampled_from(['X-H', 'Etag', 'Content-Type', 'Vary']), HSAFE), max_size=2)),
+        'resp_headers': draw(st.lists(st.one_of(st.tuples(st.sampled_from(['X-H', 'Etag', 'Content-Type', 'Vary']), HSAFE),
+                                                st.tuples(st.just('Content-Type'), st.sampled_from(STREAM_TYPES))), max_size=2)),
+        'domain_map': draw(st.sampled_from([0, 0, 0, 1, 2])),        # 1: virtual-host configuration; 2: ... and the request carries no Host header at all (HTTP/1.0 client)
         'cookies': draw(st.lists(st.tuples(st.sampled_from(['c1', 'c2']), st.sampled_from(['v', 'a b', 'é'])), max_size=2)),
         'explicit_cl': draw(st.sampled_from([None, None, None, 3, 0])),
         'before': draw(st.lists(st.sampled_from(['ok', 'ok', 'ok', 'raise', 'raise_response', 'remove_self', 'rewrite_path']), max_size=3)),
@@ -66,6 +69,8 @@ def serve(case, app_box, reqno):
         box['real_path'] = path
         path = '/legacy-location/of' + path
     env = make_environ(case['method'], path, qs=qs, extra=extra)
+    if case.get('domain_map') == 2:
+        env.pop('HTTP_HOST', None)
     r = call_app_watchdog(app, env, 10)
     if isinstance(r.escaped, Hang):
         raise CheckFailure(f'request did not finish within 10 s: {case}')
@@ -74,7 +79,10 @@ def serve(case, app_box, reqno):
 
 def make_app(case):
     import ombott
-    app = ombott.Ombott()
+    if case.get('domain_map'):
+        app = ombott.Ombott({'domain_map': (lambda host: 'blog' if host and host.startswith('blog.') else None), 'app_name_header': 'HTTP_X_APP_NAME'})
+    else:
+        app = ombott.Ombott()
     log = []
     box = {'app': app, 'log': log, 'shared': {}}
 
@@ -382,6 +390,16 @@ def run(ctx):
                             out['has_close'] = True
                         ctx.guarded(check_case, dict(base, out=out, method=method, resp_status=None))
         ctx.count('bytes_like_items_grid')
+        # streaming media types set by the handler x every outcome kind (incl. generators failing at the first next() and raised / yielded responses); virtual-host configuration without a Host header
+        for ct in STREAM_TYPES[:5]:
+            for out in outs:
+                for method in ('GET', 'HEAD'):
+                    ctx.guarded(check_case, dict(base, out=out, method=method, resp_status=None, resp_headers=[['Content-Type', ct]]))
+        for dm in (1, 2):
+            for out in outs[:14]:
+                for target in ('hit', 'miss', 'wrongverb'):
+                    ctx.guarded(check_case, dict(base, out=out, method='GET', resp_status=None, target=target, domain_map=dm))
+        ctx.count('stream_type_and_virtual_host_grid')
         # error-handler chains: every pair of handler kinds for (the status that occurs, 500)
         kinds = ['str', 'bytes', 'gen', 'raise', 'empty', 'http_response', 'error_again']
         for target, code in (('miss', '404'), ('wrongverb', '405')):
